@@ -97,32 +97,22 @@ func VerifHarness_Precedence() {
 	rassoc := make([]bool, nops)
 	tag := ""
 	for i := 0; i <= nops; i++ {
-		toks = append(toks, verifStubTok{kind: lexer.Identifier, value: string(rune('a' + i))})
+		toks = append(toks, verifStubTok{Kind: lexer.Identifier, Value: string(rune('a' + i))})
 		if i < nops {
 			k := errors.VerifNdByte(fmt.Sprintf("op%d", i))
-			errors.VerifAssume(k <= verifMaxKind)
+			errors.VerifAssume(k <= lexer.VerifMaxKind)
 			kinds[i] = lexer.TokenKind(k)
 			levels[i], rassoc[i] = verifLevel(kinds[i])
 			if levels[i] == 0 {
 				errors.VerifAssume(false) // not a binary operator of the table
 			}
 			tag += fmt.Sprint(levels[i]) + ","
-			toks = append(toks, verifStubTok{kind: kinds[i]})
+			toks = append(toks, verifStubTok{Kind: kinds[i]})
 		}
 	}
-	toks = append(toks, verifStubTok{kind: lexer.Semicolon})
+	toks = append(toks, verifStubTok{Kind: lexer.Semicolon})
 	errors.VerifTag("levels", tag)
-	var p Parser
-	if errors.VerifIsSymbolic() {
-		verifStub.toks = toks
-		verifStub.pos = 0
-		verifStub.sticky = false
-		p = NewParser(lexer.NewLexer("", "f.hms"), "f.hms")
-	} else {
-		text := verifRender(toks)
-		fmt.Printf("VERIF-DEBUG text: %q\n", text)
-		p = NewParser(lexer.NewLexer(text, "f.hms"), "f.hms")
-	}
+	p := verifParserFor(toks, false)
 	var expr ast.Expression
 	var err *errors.Error
 	panicked, msg := errors.VerifPanics(func() {
